@@ -83,6 +83,9 @@ def merge_values(pairs):
 # SymTok
 
 
+_COND_CACHE = {}
+
+
 class SymTok:
     __slots__ = ("e", "vals", "_cc")
 
@@ -99,14 +102,54 @@ class SymTok:
             return z3.BoolVal(False)
         if len(idxs) == n:
             return z3.BoolVal(True)
+        name = self._name()
+        if name is not None:
+            key = (name, n, tuple(idxs))
+            c = _COND_CACHE.get(key)
+            if c is not None:
+                return c
         if len(idxs) > n // 2 and n > 2:
             s = set(idxs)
             rest = [i for i in range(n) if i not in s]
-            return z3.And([self.e != i for i in rest]) if len(rest) > 1 else (self.e != rest[0])
-        return z3.Or([self.e == i for i in idxs]) if len(idxs) > 1 else (self.e == idxs[0])
+            c = z3.And([self.e != i for i in rest]) if len(rest) > 1 else (self.e != rest[0])
+        else:
+            c = z3.Or([self.e == i for i in idxs]) if len(idxs) > 1 else (self.e == idxs[0])
+        if name is not None:
+            if len(_COND_CACHE) > 200000:
+                _COND_CACHE.clear()
+            _COND_CACHE[key] = c
+        return c
+
+    def _name(self):
+        """variable name when e is a plain Int constant (then equal names are the same variable)"""
+        nm = self._cc
+        if nm is None:
+            e = self.e
+            nm = e.decl().name() if (z3.is_const(e) and e.decl().kind() == z3.Z3_OP_UNINTERPRETED) else False
+            self._cc = nm
+        return nm or None
 
     def _where(self, pred):
         return self.cond_in([i for i, v in enumerate(self.vals) if pred(v)])
+
+    def sbool(self, idxs):
+        """SymBool / bool for `value index in idxs`"""
+        idxs = list(idxs)
+        if not idxs:
+            return False
+        if len(idxs) == len(self.vals):
+            return True
+        name = self._name()
+        if name is None:
+            return SymBool(self.cond_in(idxs))
+        S = frozenset(idxs)
+        cur = _eng().doms.get(name)
+        if cur is not None:  # the path already narrowed this variable: implied answers need no term
+            if cur <= S:
+                return True
+            if not (cur & S):
+                return False
+        return SymBool(self.cond_in(idxs), (name, len(self.vals), S))
 
     def _eq_cond(self, o):
         if isinstance(o, str):
@@ -128,11 +171,22 @@ class SymTok:
         i = _eng().concretize(self.e)
         return self.vals[i]
 
+    def live(self):
+        """indices of the alternatives still feasible on this path (over-approximation)"""
+        name = self._name()
+        if name is not None:
+            cur = _eng().doms.get(name)
+            if cur is not None:
+                return sorted(cur)
+        return range(len(self.vals))
+
     def pointwise(self, fn, *others):
-        """apply fn(value, *other_values) to every alternative and merge"""
+        """apply fn(value, *other_values) to every (still feasible) alternative and merge"""
         res = []
         errs = []
-        for i, v in enumerate(self.vals):
+        vals = self.vals
+        for i in self.live():
+            v = vals[i]
             args = []
             for o in others:
                 if isinstance(o, SymTok):
@@ -149,12 +203,10 @@ class SymTok:
             except Exception as ex:  # noqa: the real str method raised for this alternative
                 errs.append((i, ex))
         if errs:
-            if _eng().branch(self.cond_in([i for i, _ in errs])):
+            if not res or bool(self.sbool([i for i, _ in errs])):
                 v = self.concrete()
                 args = [o.concrete() if isinstance(o, SymTok) else o for o in others]
                 return fn(v, *args)  # raises for real
-            if not res:
-                raise engine.Infeasible()
         return self._merge(res)
 
     def _merge(self, res):
@@ -172,7 +224,8 @@ class SymTok:
             full = [r0 if x is None else x for x in full]
             return SymTok(self.e, full)
         if all(isinstance(r, bool) for r in vals):
-            return SymBool(self.cond_in([i for i, r in res if r]))
+            # alternatives outside `res` are infeasible on this path: their truth value is irrelevant
+            return self.sbool([i for i, r in res if r])
         if all(isinstance(r, int) and not isinstance(r, bool) for r in vals):
             groups = {}
             for i, r in res:
@@ -211,6 +264,8 @@ class SymTok:
             yield self[i]
 
     def __eq__(self, o):
+        if isinstance(o, str):
+            return self.sbool([i for i, v in enumerate(self.vals) if v == o])
         c = self._eq_cond(o)
         if c is None:
             return False
@@ -225,7 +280,7 @@ class SymTok:
         r = self.__eq__(o)
         if isinstance(r, bool):
             return not r
-        return SymBool(z3.Not(r.e))
+        return ~r
 
     def __contains__(self, sub):
         return bool(self.pointwise(lambda s, x: x in s, sub))
@@ -422,6 +477,17 @@ class SymStr:
             return z3.And(conds) if conds else z3.BoolVal(True)
         return None
 
+    def _one_slot_dom(self, pred_on_alt):
+        """dom tuple when this string involves exactly one slot"""
+        sl = self.slots()
+        if len(sl) != 1:
+            return None
+        s = sl[0]
+        return (s.name, len(s.alts), frozenset(i for i, a in enumerate(s.alts) if pred_on_alt(s, a)))
+
+    def _render(self, s, alt):
+        return "".join(c if isinstance(c, str) else alt[c[1]] for c in self.cells)
+
     def __eq__(self, o):
         c = self._eq_cond(o)
         if c is None:
@@ -430,17 +496,16 @@ class SymStr:
             return True
         if z3.is_false(c):
             return False
-        return SymBool(c)
+        dom = None
+        if isinstance(o, str):
+            dom = self._one_slot_dom(lambda s, a: self._render(s, a) == o)
+        return SymBool(c, dom)
 
     def __ne__(self, o):
-        c = self._eq_cond(o)
-        if c is None:
-            return True
-        if z3.is_true(c):
-            return False
-        if z3.is_false(c):
-            return True
-        return SymBool(z3.Not(c))
+        r = self.__eq__(o)
+        if isinstance(r, bool):
+            return not r
+        return ~r
 
     def _pred(self, f):
         """str predicate semantics: non-empty and all chars satisfy f"""
@@ -460,7 +525,8 @@ class SymStr:
                     conds.append(s.cond_in(idxs))
         if not conds:
             return True
-        return SymBool(z3.And(conds) if len(conds) > 1 else conds[0])
+        dom = self._one_slot_dom(lambda s, a: all(f(ch) for ch in self._render(s, a)))
+        return SymBool(z3.And(conds) if len(conds) > 1 else conds[0], dom)
 
     def isalpha(self):
         return self._pred(str.isalpha)
@@ -749,14 +815,17 @@ def sym_len(x):
 # containers
 
 
+_MERGE_CACHE = {}
+
+
 class SDict(dict):
     """dict whose look-ups accept symbolic string keys (merging the hits)"""
 
     def _hits(self, k):
         if isinstance(k, SymTok):
             groups = {}
-            for i, v in enumerate(k.vals):
-                groups.setdefault(v, []).append(i)
+            for i in k.live():
+                groups.setdefault(k.vals[i], []).append(i)
             return [(v, k.cond_in(idxs)) for v, idxs in groups.items() if dict.__contains__(self, v)]
         out = []
         for key in dict.keys(self):
@@ -766,27 +835,48 @@ class SDict(dict):
                     out.append((key, c))
         return out
 
+    def _has(self, k):
+        if isinstance(k, SymTok):
+            return bool(k.sbool([i for i, v in enumerate(k.vals) if dict.__contains__(self, v)]))
+        hits = [c for _, c in self._hits(k)]
+        return _eng().branch(z3.Or(hits) if hits else z3.BoolVal(False))
+
     def __contains__(self, k):
         if not isinstance(k, (SymStr, SymTok)):
             if isinstance(k, SymInt):
                 k = int(k)
             return dict.__contains__(self, k)
-        hits = [c for _, c in self._hits(k)]
-        return _eng().branch(z3.Or(hits) if hits else z3.BoolVal(False))
+        return self._has(k)
 
     def __getitem__(self, k):
         if not isinstance(k, (SymStr, SymTok)):
             if isinstance(k, SymInt):
                 k = int(k)
             return dict.__getitem__(self, k)
-        hits = self._hits(k)
-        if not _eng().branch(z3.Or([c for _, c in hits]) if hits else z3.BoolVal(False)):
+        if not self._has(k):
             raise KeyError(k)
+        hits = self._hits(k)
         if len(hits) == 1:
             return dict.__getitem__(self, hits[0][0])
+        vals = [dict.__getitem__(self, key) for key, _ in hits]
+        ck = None
+        if isinstance(k, SymTok) and k._name() is not None:
+            ck = (id(self), k._name(), len(k.vals), tuple(k.live()), tuple(key for key, _ in hits), tuple(map(id, vals)))
+            got = _MERGE_CACHE.get(ck)
+            if got is not None:
+                if got is CannotMerge:
+                    return dict.__getitem__(self, k.concrete())
+                return got[0]
         try:
-            return merge_values([(c, dict.__getitem__(self, key)) for key, c in hits])
+            r = merge_values([(c, v) for (key, c), v in zip(hits, vals)])
+            if ck is not None:
+                if len(_MERGE_CACHE) > 50000:
+                    _MERGE_CACHE.clear()
+                _MERGE_CACHE[ck] = (r, vals)  # vals kept alive so that the ids in the key stay valid
+            return r
         except CannotMerge:
+            if ck is not None:
+                _MERGE_CACHE[ck] = CannotMerge
             return dict.__getitem__(self, k.concrete())
 
     def get(self, k, d=None):
@@ -840,7 +930,7 @@ class SSet(frozenset):
             return frozenset.__contains__(self, k)
         if isinstance(k, SymTok):
             idxs = [i for i, v in enumerate(k.vals) if frozenset.__contains__(self, v)]
-            return _eng().branch(k.cond_in(idxs))
+            return bool(k.sbool(idxs))
         hits = []
         for key in frozenset.__iter__(self):
             if isinstance(key, str):
@@ -916,7 +1006,8 @@ def sym_in(a, b):
     if isinstance(b, str) and isinstance(a, SymStr):
         if len(a.cells) == 1 and isinstance(a.cells[0], tuple):
             sl, o = a.cells[0]
-            return _eng().branch(sl.cond_in([i for i, alt in enumerate(sl.alts) if alt[o] in b]))
+            idxs = [i for i, alt in enumerate(sl.alts) if alt[o] in b]
+            return _eng().branch(sl.cond_in(idxs), (sl.name, len(sl.alts), frozenset(idxs)))
         return a.concrete() in b
     return a in b
 
@@ -1038,11 +1129,19 @@ def make_tokens(prefix, n, alphabet):
     """n SymToks over one alphabet"""
     eng = _eng()
     out = []
+    alphabet = list(alphabet)
     for i in range(n):
-        v = z3.Int("%s%d" % (prefix, i))
-        eng.assume(z3.And(v >= 0, v < len(alphabet)))
-        out.append(SymTok(v, list(alphabet)))
+        key = ("%s%d" % (prefix, i), len(alphabet))
+        ent = _TOKVARS.get(key)
+        if ent is None:
+            v = z3.Int(key[0])
+            ent = _TOKVARS[key] = (v, z3.And(v >= 0, v < len(alphabet)))
+        eng.assume(ent[1])
+        out.append(SymTok(ent[0], alphabet))
     return out
+
+
+_TOKVARS = {}
 
 
 class TokStr:
